@@ -120,9 +120,13 @@ Definition parse_step (acc : res merr rule) (c : bytes) : res merr rule :=
   let* o := op_of_pair (fst kv) (snd kv) in
   apply_op r o.
 
-(* `s.split(',')` always yields at least one component, so the peek test at mod.rs:420 never fires *)
+(* mod.rs:437-442 (fix 235b9dce): the empty string is the rule without any key.  Otherwise `s.split(',')`
+   always yields at least one component, so the peek test at mod.rs:444 never fires. *)
 Definition parse (s : bytes) : res merr rule :=
-  fold_left parse_step (split_on comma s) (Ok empty_rule).
+  match s with
+  | [] => Ok empty_rule
+  | _ => fold_left parse_step (split_on comma s) (Ok empty_rule)
+  end.
 
 (* rule equality as derived PartialEq (used by the line driver) *)
 Definition opt_eqb {A} (e : A -> A -> bool) (a b : option A) : bool :=
